@@ -79,7 +79,10 @@ class C16(Prop):
     time_limit = {'quick': 60, 'thorough': 600}
     rule = ('seven scenario kinds (eq/text/json/decode/stream/ctype/copy), see harness/props/c16.py. decode: valid and corrupted UTF-8 '
             '(overlong, surrogates, > U+10FFFF, truncated), Latin-1, ASCII and six opaque codecs, cut at random positions incl. inside '
-            'sequences and with empty chunks; stream: BytesIO and real files, chunk sizes 1..9 and around the length, offsets -n-2..n+2, '
+            'sequences and with empty chunks - and every decode observation is repeated on the same Content object after an abandoned iter_text (0..n pieces '
+            'pulled, generator dropped) and after a complete/failed decode of an earlier, shorter source: the text must be a function of the bytes alone '
+            '(a dependence is reported as a trace outside the model\'s vocabulary); stream: BytesIO and real files, 45 % behind a short-read plan (raw-stream '
+            'behaviour: a read returns fewer bytes than asked for before EOF), chunk sizes 1..9 and around the length, offsets -n-2..n+2, '
             'whence 0/1/2, buffer_now, data replaced between construction and iteration, 1-3 consumptions; ctype: token names, values over an '
             'adversarial alphabet (quotes, backslashes, separators, NUL, non-ASCII, encoded-word markers, line breaks). thorough adds every '
             'cutting of five byte strings of <= 9 bytes and every stream configuration with <= 6 bytes. non-trivial = decode with a cut inside a '
@@ -91,7 +94,13 @@ class C16(Prop):
                    'file objects: the read/seek contract of io.BytesIO and of open(path, "rb") is modelled (TTV.Content.seek/read), not verified; raw streams are '
                    'modelled by a finite plan of per-read caps >= 1 (a read returns at least one byte while data remains), restarting with every evaluation',
                    'email.message header parsing is modelled by the quoted-string grammar parseCT for lower-case token type/subtype/parameter names; '
-                   'inside finding class valueEncodedWord the model does not reproduce the RFC 2047 decoding (soft correspondence there)']
+                   'inside finding class valueEncodedWord the model does not reproduce the RFC 2047 decoding (soft correspondence there)',
+                   'the model has no object state for a Content (decoding is a pure function of the source bytes): independence of earlier uses of '
+                   'the same object is checked on the real objects (reuse observations) and, for the source text, by the tie C16_src_iter_text '
+                   '(a fresh incremental decoder per call)',
+                   'translator tie: harness/pycontent2lean.py reads Content._iter_text, content_from_reader, _iter_chunks, ContentType.__repr__/_quote and '
+                   'the charset work-around of _make_content_type as data; TTV.ContentSkel gives the data its meaning (trusted: that the interpreter '
+                   'reads the recognised statement forms as Python does); unrecognised statements become .unknown']
 
     manifest = {
         'text': 'Theorems for all texts, byte strings, chunkings, chunk sizes >= 1, seek offsets/origins and copy histories: as_text of ANY lawful '
@@ -100,14 +109,21 @@ class C16(Prop):
                 'String.utf8EncodeChar); text_content round-trips under every chunking; _iter_chunks yields non-empty chunks <= chunk_size that concatenate '
                 'to the bytes from the clamped seek position to EOF, lazily unless buffer_now; Content equality = type and bytes; ContentType render/parse '
                 'round trip for lower-case token names and arbitrary values outside three recorded finding classes; _copy_content copies are snapshots '
-                'evaluated once. The hand-written model is tied to the code by a differential check on instrumented streams/files, real codecs and the real '
-                'email-based parser.',
+                'evaluated once. The hand-written model is tied to the code (a) by theorems C16_src_* proving that iterText, the buffer_now step, the chunk '
+                'loop, render/quoteValue and fixCharset ARE the interpretation of statement skeletons re-read from content.py, content_type.py and real.py on '
+                'every run, (b) by a differential check on instrumented streams/files (incl. short-reading raw streams), real codecs, re-used Content objects '
+                'and the real email-based parser.',
         'note': 'partial: the content-type round trip (and hence holds_model) is proved outside the finding classes charsetComma, valueCRLF, '
                 'valueEncodedWord (the last one found by this check; inside it the model is not faithful). trusted: Lean kernel, the model '
                 'TTV/Model/Content.lean, the harness; codecs other than ISO-8859-1/ASCII/UTF-8 are opaque (law assumed, differential only); json, the '
                 'read/seek contract of BytesIO/files and the email header parser are modelled, not verified',
         'technique': 'Lean 4 proofs (structural/functional induction, omega) over an executable model; executable spec shared with a differential correspondence check',
     }
+
+    def extract_tables(self, repo):
+        """tie: _iter_text / content_from_reader / _iter_chunks / __repr__ + _quote / the charset work-around, re-read from the tree"""
+        from harness import pycontent2lean
+        return {'TTV/Generated/ContentSrc.lean': pycontent2lean.generate(repo)}
 
     # ------------------------------------------------------------------ implementation side
     def run_impl(self, inp):
@@ -558,6 +574,7 @@ class C16(Prop):
                 f.append('decode:cut-inside-sequence')
             if not inp[1]:
                 f.append('decode:non-text-type')
+            f.append('decode:reuse-observations=%s' % (2 * (n + 1) if n < 4 else '10+'))
         elif k == 'stream':
             _, is_file, d0, d1, pos0, size, seek, bn, iters, caps = inp
             n = len(d0)
